@@ -36,13 +36,15 @@ and in the shifted run (`ArmOk`; on the 64-bit build it reads `now + k + add < 2
 `now + k < 2^64`): 50 ms (`NextDTSendTime` after an announce / between broadcast packets), 100 ms (after a CTS), 250 ms
 (`StartAddressClaim`, only used by `moveTo`), and for every device index `i` the retry delays `187 + 8·address`
 (product information) and `187 + 10·address` (configuration information), `address = srcAddr n i` (the device's
-present source address, 0 for an index without device; sending never changes it: `sendMsg_src`). -/
+present source address, 0 for an index without device; sending never changes it: `sendMsg_src`), and `gap` = the
+configured BAM pacing interval `n.bamGap` (`pendingTP` re-arms `NextDTSendTime` with it; no function modifies it). -/
 structure TPClockOk (k : Nat) (n : Node) : Prop where
   a50 : ArmOk n.s.flavor k n.s.now 50
   a100 : ArmOk n.s.flavor k n.s.now 100
   a250 : ArmOk n.s.flavor k n.s.now 250
   prod : ∀ i, ArmOk n.s.flavor k n.s.now (187 + srcAddr n i * 8)
   conf : ∀ i, ArmOk n.s.flavor k n.s.now (187 + srcAddr n i * 10)
+  gap : ArmOk n.s.flavor k n.s.now n.bamGap
 
 theorem armOk_lt64 {f : Flavor} {k now add : Nat} (h : ArmOk f k now add) : f = .t64 → now + k < M64 := by
   intro hf; subst hf
@@ -394,24 +396,26 @@ theorem sendMsg_src (s : St) (m : Msg) (dev : Option Nat) :
 
 /-! ## frame facts and the shape of the commutation statements -/
 
-/-- clock, flavour and the devices' source addresses are the same -/
+/-- clock, flavour, the devices' source addresses and the configured BAM pacing interval are the same -/
 def Keep (n n' : Node) : Prop :=
-  n'.s.now = n.s.now ∧ n'.s.flavor = n.s.flavor ∧ n'.s.devs.map (·.source) = n.s.devs.map (·.source)
+  n'.s.now = n.s.now ∧ n'.s.flavor = n.s.flavor ∧ n'.s.devs.map (·.source) = n.s.devs.map (·.source) ∧
+  n'.bamGap = n.bamGap
 
-theorem Keep.rfl' (n : Node) : Keep n n := ⟨rfl, rfl, rfl⟩
+theorem Keep.rfl' (n : Node) : Keep n n := ⟨rfl, rfl, rfl, rfl⟩
 
 theorem Keep.trans {a b c : Node} (h1 : Keep a b) (h2 : Keep b c) : Keep a c :=
-  ⟨h2.1.trans h1.1, h2.2.1.trans h1.2.1, h2.2.2.trans h1.2.2⟩
+  ⟨h2.1.trans h1.1, h2.2.1.trans h1.2.1, h2.2.2.1.trans h1.2.2.1, h2.2.2.2.trans h1.2.2.2⟩
 
 theorem srcAddr_map (n : Node) (i : Nat) : srcAddr n i = ((n.s.devs.map (·.source))[i]?).getD 0 := by
   unfold srcAddr; rw [List.getElem?_map]
 
 theorem Keep.srcAddr {n n' : Node} (h : Keep n n') (i : Nat) : srcAddr n' i = srcAddr n i := by
-  rw [srcAddr_map, srcAddr_map, h.2.2]
+  rw [srcAddr_map, srcAddr_map, h.2.2.1]
 
 theorem TPClockOk.keep {k : Nat} {n n' : Node} (hc : TPClockOk k n) (h : Keep n n') : TPClockOk k n' :=
   ⟨by rw [h.1, h.2.1]; exact hc.a50, by rw [h.1, h.2.1]; exact hc.a100, by rw [h.1, h.2.1]; exact hc.a250,
-   fun i => by rw [h.1, h.2.1, h.srcAddr]; exact hc.prod i, fun i => by rw [h.1, h.2.1, h.srcAddr]; exact hc.conf i⟩
+   fun i => by rw [h.1, h.2.1, h.srcAddr]; exact hc.prod i, fun i => by rw [h.1, h.2.1, h.srcAddr]; exact hc.conf i,
+   by rw [h.1, h.2.1, h.2.2.2]; exact hc.gap⟩
 
 @[simp] theorem srcAddr_shift (k : Nat) (n : Node) (i : Nat) : srcAddr (n.shift k) i = srcAddr n i := by
   show (((n.s.devs.map (Dev.shift n.s.flavor k))[i]?).map (·.source)).getD 0 = _
@@ -454,7 +458,7 @@ theorem Com.pair {β : Type} {k : Nat} {n n' ns : Node} (c : Com k n n' ns) (b :
 
 theorem Node.ext' {a b : Node} (h1 : a.s = b.s) (h2 : a.tp = b.tp) (h3 : a.slots = b.slots)
     (h4 : a.onlyKnown = b.onlyKnown) (h5 : a.rxq = b.rxq) (h6 : a.out = b.out) (h7 : a.info = b.info)
-    (h8 : a.prod = b.prod) (h9 : a.conf = b.conf) : a = b := by
+    (h8 : a.prod = b.prod) (h9 : a.conf = b.conf) (h10 : a.bamGap = b.bamGap) : a = b := by
   cases a; cases b; simp_all
 
 def Node.withS (n : Node) (s : St) : Node := { n with s := s }
@@ -533,7 +537,7 @@ theorem emit_shift {k : Nat} {n : Node} (h : Hyp k n) (m : Msg) (i : Nat) :
   rw [emit_eq, emit_eq]
   have e0 : (n.shift k).s = n.s.shift k := rfl
   rw [e0, e]
-  exact ⟨by rw [withS_shift k n _ e2], withS_ok h.2 o e2, e1, e2, sendMsg_src _ _ _⟩
+  exact ⟨by rw [withS_shift k n _ e2], withS_ok h.2 o e2, e1, e2, sendMsg_src _ _ _, rfl⟩
 
 def endTp (f : Flavor) (t : TpDev) (x : InfoDev) : TpDev :=
   { t with pend := { t.pend with pgn := 0, len := 0 }, timer := Sched.disabled f,
@@ -686,9 +690,12 @@ theorem pendingTP_shift {k : Nat} {n : Node} (h : Hyp k n) (i : Nat) :
       have c1 := (sendTPDT_shift h i).fst
       have h1' := h.next c1
       rw [c1.1]
-      have c2 := c1.trans (setTimer_shift h1'.2 i h1'.1.a50)
-      rw [c2.1, hasAllSent_shift]
-      by_cases h2 : hasAllSent (setTimer (sendTPDT n i).1 i 50) i = true
+      have eb : (n.shift k).bamGap = n.bamGap := rfl
+      have hg : ArmOk (sendTPDT n i).1.s.flavor k (sendTPDT n i).1.s.now n.bamGap := by
+        rw [← c1.2.2.2.2.2]; exact h1'.1.gap
+      have c2 := c1.trans (setTimer_shift h1'.2 i hg)
+      rw [eb, c2.1, hasAllSent_shift]
+      by_cases h2 : hasAllSent (setTimer (sendTPDT n i).1 i n.bamGap) i = true
       · rw [if_pos h2, if_pos h2]; exact c2.trans (endSendTP_shift c2.2.1 i)
       · rw [if_neg h2, if_neg h2]; exact ⟨rfl, c2.2.1, c2.2.2⟩
     · rw [if_neg h1, if_neg h1]; exact endSendTP_shift h.2 i
@@ -1316,7 +1323,7 @@ theorem respondIsoRequest_shift {k : Nat} {n : Node} (h : Hyp k n) (addressed : 
     dsimp only
     have c1 : Com k n (n.withS (n.s.withDev i (isAddressClaimStarted n.s.flavor n.s.now d).1))
         ((n.shift k).withS ((n.shift k).s.withDev i ((isAddressClaimStarted n.s.flavor n.s.now d).1.shift n.s.flavor k))) := by
-      refine ⟨?_, withS_ok h.2 (St.withDev_ok h.2.1 eo) rfl, rfl, rfl, ?_⟩
+      refine ⟨?_, withS_ok h.2 (St.withDev_ok h.2.1 eo) rfl, rfl, rfl, ?_, rfl⟩
       · rw [withS_shift k n (n.s.withDev i (isAddressClaimStarted n.s.flavor n.s.now d).1) rfl, St.withDev_shift]; rfl
       · exact updDev_src (by rw [List.getElem?_map, hg, acs_source]; rfl)
     rw [c1.1]
@@ -1459,7 +1466,7 @@ theorem claimTick_shift {k : Nat} {n : Node} (h : Hyp k n) : Com k n (claimTick 
   obtain ⟨e, o, e1, e2, e3⟩ := tick_shift h.clock64 h.2.1
   have e0 : (n.shift k).s = n.s.shift k := rfl
   rw [e0, e]
-  exact ⟨(withS_shift k n _ e2).symm, withS_ok h.2 o e2, e1, e2, e3⟩
+  exact ⟨(withS_shift k n _ e2).symm, withS_ok h.2 o e2, e1, e2, e3, rfl⟩
 
 def Node.withRxq (n : Node) (q : List Frame) : Node := { n with rxq := q }
 
@@ -1496,12 +1503,12 @@ theorem sendMsgTP_com {k : Nat} {n : Node} (h : Hyp k n) (m : Msg) (dev : Option
   | refuse s' =>
     rw [hgt] at og sg hs
     exact ⟨by rw [show (({ n with s := s' } : Node), false).1 = n.withS s' from rfl, withS_shift k n s' sg.2.1]; rfl,
-      withS_ok h.2 og sg.2.1, sg.1, sg.2.1, hs⟩
+      withS_ok h.2 og sg.2.1, sg.1, sg.2.1, hs, rfl⟩
   | pass s1 d1 canId =>
     rw [hgt] at og sg hs
     simp only [Gate.shift]
     have c1 : Com k n (n.withS s1) ((n.shift k).withS (s1.shift k)) :=
-      ⟨(withS_shift k n s1 sg.2.1).symm, withS_ok h.2 og.1 sg.2.1, sg.1, sg.2.1, hs.1⟩
+      ⟨(withS_shift k n s1 sg.2.1).symm, withS_ok h.2 og.1 sg.2.1, sg.1, sg.2.1, hs.1, rfl⟩
     have e1 : (s1.shift k).lists = s1.lists := rfl
     rw [e1, srcOf_shift]
     by_cases hb : m.tp = true ∧ ¬(m.len ≤ 8 ∧ ¬(m.prio < 0x80 ∧ isFastPacketPGN s1.lists m.pgn = true))
@@ -1515,7 +1522,7 @@ theorem sendMsgTP_com {k : Nat} {n : Node} (h : Hyp k n) (m : Msg) (dev : Option
       exact ⟨by rw [show (({ n with s := (produce s1 (dev.getD 0) d1 canId m).1 } : Node),
             (produce s1 (dev.getD 0) d1 canId m).2).1 = n.withS (produce s1 (dev.getD 0) d1 canId m).1 from rfl,
           withS_shift k n _ hf]; rfl,
-        withS_ok h.2 op hf, sp.1.trans sg.1, hf, (produce_src s1 _ d1 canId m hs.2).trans hs.1⟩
+        withS_ok h.2 op hf, sp.1.trans sg.1, hf, (produce_src s1 _ d1 canId m hs.2).trans hs.1, rfl⟩
 
 def moved (dv : Dev) (a : Nat) : Dev :=
   { dv with source := a, endSource := if a > 0 then a - 1 else Gen.maxCanBusAddress }
